@@ -20,6 +20,11 @@ CLAIMED = {
    note="Trusted: reference Demon encoder, the projection in drive/pivot.go, SQLite. Agent ids are below 2^31 here (top-bit ids are C08/C10 material). Universe of 4 agents.",
    technique="TLA+ spec + exhaustive TLC; bounded-exhaustive and random behaviours replayed into the real code; TLC trace validation (strict + monitor)",
    design="DESIGN.md §5 C09"),
+ "C08": dict(
+   text="Route.tla defines the frame algebra of pivot routing (per-hop encryption terms, pipe frames, pivot tasks) and proves by exhaustive TLC enumeration that unwrapping what the wrapping rule builds visits exactly the chain's hops and ends with the original task under the target's key, for every chain of 2..6 agents and every id-class assignment (1, small, top-bit, 0xFFFFFFFF). Each configuration is replayed on a real teamserver: the chain is built with SMB-connect callbacks (plus a sibling), an operator task is routed down and the first hop's check-in is unwrapped layer by layer with each hop's own AES key by the reference Demon; a callback is relayed upward through every hop with its request id outstanding for a TLC-chosen owner (target, another hop, nobody) and attribution/decryption/gating are read from the session records and console events. TLC validates the recorded observations (strict + monitor).",
+   note="Trusted: the reference Demon codec (AES-CTR via Go's crypto/aes, pipe frame from TransportSmb.c). Quick replays a seeded sample of 400 of the 1466 configurations, thorough all of them. Ids inside a class are sampled, not enumerated.",
+   technique="TLA+ frame algebra + exhaustive TLC; all configurations replayed into the real code; TLC trace validation",
+   design="DESIGN.md §5 C08"),
 }
 NOT_BUILT = "machinery not built yet (construction order in DESIGN.md §8); not claimed until its check runs clean on the unchanged tree"
 
